@@ -60,9 +60,17 @@ func HarnessCoalescedPair() {
 	vClockFreeze(true)
 	now := time.Now()
 	// hand-over window action
-	window := symChoice(4)
+	window := symChoice(5)
 	vSingleflightAfter(func() {
 		switch window {
+		case 4:
+			// the transfer took longer than the answer's lifetime: when the clients pick the
+			// stored entry up it is already stale - they are still answered from that one fetch
+			vClockFreeze(false)
+			t := time.Now()
+			vAssume(t.Sub(now) > 2*time.Minute && t.Sub(now) < time.Hour)
+			vClockFreeze(true)
+			vReach("lifetime-elapsed-in-window")
 		case 1:
 			e.p.cache.Delete(key)
 			vReach("entry-deleted-in-window")
@@ -127,6 +135,10 @@ func HarnessCoalescedPair() {
 	if stale && window == 0 {
 		vAssert(len(e.o.seen) == 1, "c05.coalesced-revalidation-hit-origin-more-than-once")
 		vAssert(string(ba) == string(bb), "c05.coalesced-body-differs")
+	}
+	if outcome == 0 && window == 4 && pre == 0 {
+		vAssert(len(e.o.seen) == 1, "c05.coalesced-fetch-hit-origin-more-than-once")
+		vAssert(string(ba) == "BODY" && string(bb) == "BODY", "c05.coalesced-body-differs")
 	}
 	if outcome == 0 && window == 0 && pre == 0 {
 		vAssert(len(e.o.seen) == 1, "c05.coalesced-fetch-hit-origin-more-than-once")
